@@ -32,8 +32,9 @@ class Snap:
 
 
 class Sim:
-    def __init__(self, cfg, checks=()):
+    def __init__(self, cfg, checks=(), extra_invariant=None):
         self.cfg = cfg
+        self.extra_invariant = extra_invariant
         self.checks = set(checks)
         self.work = env.fresh_dir('hist')
         self.store = membackend.Store()
@@ -52,6 +53,10 @@ class Sim:
         self.config_bytes = None
         self.failure = None
         self.seq = 0
+        self.paths = cfg.get('paths') or PATHS
+        self.pw_prefix = cfg.get('pw_prefix', 'pw').encode()
+        self.printed = []             # stdout of init / add-key (what a user would see or save)
+        self.plain = None             # C05: needle bookkeeping
         self._init_repo()
 
     # ------------------------------------------------------------------ plumbing
@@ -102,12 +107,13 @@ class Sim:
 
     def _init_repo(self):
         import copy
-        pw = b'pw0' if self.encrypted else None
+        pw = self.pw_prefix + b'0' if self.encrypted else None
 
         async def go():
             repo = world.repository(self.backend(), self.n)
             return await repo.init(password=pw, settings=copy.deepcopy(self.cfg['settings']))
-        res, _ = self.run(go())
+        res, out = self.run(go())
+        self.printed.append(out)
         key = refimpl.dumps(res.key) if res.key is not None else None
         self.config_bytes = self.store.objects['config']
         self.users.append(User(0, pw, key, 0, 'owner', None))
@@ -149,7 +155,7 @@ class Sim:
         src = self.user(op['of'])
         kind = op['kind']
         uid = len(self.users)
-        pw = src.password if kind == 'clone' else b'pw%d' % uid
+        pw = src.password if kind == 'clone' else self.pw_prefix + b'%d' % uid
         shared = kind in ('shared', 'clone')
         settings = {'encryption': {'kdf': world.cheap_kdf(op.get('kdf', 0))}}
 
@@ -159,9 +165,10 @@ class Sim:
                 await repo.unlock(password=src.password, key=src.key)
             return await repo.add_key(password=pw, settings=settings, shared=shared)
         try:
-            res, _ = self.run(go())
+            res, out = self.run(go())
         except Exception as e:
             return fail('add-key-error', f'add_key({kind}) raised {type(e).__name__}: {e}')
+        self.printed.append(out)
         key = refimpl.dumps(res.new_key)
         fam = src.family if shared else max(u.family for u in self.users) + 1
         self.users.append(User(uid, pw, key, fam, kind, src.uid))
@@ -174,7 +181,7 @@ class Sim:
         os.makedirs(src)
         specs = []
         for p, c in files:
-            path = PATHS[p % len(PATHS)]
+            path = self.paths[p % len(self.paths)]
             spec = self.cfg['contents'][c % len(self.cfg['contents'])]
             specs.append({'path': path, 'content': spec, 'mtime_ns': 1_500_000_000_000_000_000 + (c % 97) * 1000 + p % 13})
         seen, uniq = set(), []
@@ -204,8 +211,8 @@ class Sim:
     def op_snapshot(self, op, slot=0):
         u = self.user(op['user'])
         src, model = self._write_fileset(slot, op['files'])
-        note = f'note-{self.step}' if op.get('note') else None
-        fileset = tuple(sorted((p % len(PATHS), c % len(self.cfg['contents'])) for p, c in op['files']))
+        note = (self.cfg.get('note_prefix', 'note-') + str(self.step)) if op.get('note') else None
+        fileset = tuple(sorted((p % len(self.paths), c % len(self.cfg['contents'])) for p, c in op['files']))
         before_log = len(self.store.log)
         prior = [s for s in self.live() if s.family == u.family and s.fileset == fileset and model]
         try:
@@ -420,7 +427,7 @@ class Sim:
             u = self.user(sub['user'])
             if sub['op'] == 'snapshot':
                 src, model = self._write_fileset(slot + 1, sub['files'])
-                fileset = tuple(sorted((p % len(PATHS), c % len(self.cfg['contents'])) for p, c in sub['files']))
+                fileset = tuple(sorted((p % len(self.paths), c % len(self.cfg['contents'])) for p, c in sub['files']))
                 coros.append(self._snapshot_coro(u, 0, src, None))
                 post.append(('snapshot', u, model, fileset))
             elif sub['op'] == 'restore':
@@ -600,6 +607,10 @@ class Sim:
                 wrong = sorted(p for p in set(got) | set(s.files) if got.get(p) != s.files.get(p))
                 return fail('live-snapshot-damaged', f'live snapshot {s.name[:12]} (user {s.owner}) no longer yields '
                             f'the captured contents: {wrong[:3]}')
+        if self.extra_invariant is not None:
+            f = self.extra_invariant(self, objs)
+            if f:
+                return f
         if 'c07' in self.checks and not self.planted_orphans:
             f = self._dedup_invariant(objs)
             if f:
@@ -669,7 +680,7 @@ def sub_op():
     )
 
 
-def make_machine(prop, tier, ctx, *, checks, encrypted=None, weights=None):
+def make_machine(prop, tier, ctx, *, checks, encrypted=None, weights=None, extra_invariant=None, cfg_strategy=None):
     """Rule-based machine whose steps are JSON ops applied to a Sim; the op list is the case."""
     stats, known, check_time = ctx['stats'], ctx['known'], ctx['check_time']
     w = dict(snapshot=3, add_user=2, delete=2, clean=1, restore=1, list=1, concurrent=1,
@@ -683,11 +694,11 @@ def make_machine(prop, tier, ctx, *, checks, encrypted=None, weights=None):
             self.case = None
             self.dead = False
 
-        @initialize(cfg=sim_config(encrypted))
+        @initialize(cfg=cfg_strategy if cfg_strategy is not None else sim_config(encrypted))
         def init(self, cfg):
             check_time()
             self.case = {'cfg': cfg, 'ops': []}
-            self.sim = Sim(cfg, checks)
+            self.sim = Sim(cfg, checks, extra_invariant)
 
         def do(self, op):
             if self.dead or self.sim is None:
@@ -744,9 +755,9 @@ def make_machine(prop, tier, ctx, *, checks, encrypted=None, weights=None):
     return Machine
 
 
-def replay(prop, case, checks):
+def replay(prop, case, checks, extra_invariant=None):
     """run_case for history properties: interpret the op list without Hypothesis."""
-    sim = Sim(case['cfg'], checks)
+    sim = Sim(case['cfg'], checks, extra_invariant)
     try:
         for op in case['ops']:
             f = sim.apply(op)
